@@ -16,13 +16,24 @@
 (***************************************************************************)
 EXTENDS ID, Families
 
-CONSTANTS Family, RndN, RndK, Seeds
+CONSTANTS Family, RndN, RndK, Seeds,
+          Grows   \* enable the history action Grow
 VARIABLES g, phase
 vars == <<g, phase>>
 
 Init == g \in GraphFamily(Family, RndN, RndK) /\ phase = "chosen"
 Run  == phase = "chosen" /\ phase' = "done" /\ g' = g
-Spec == Init /\ [][Run]_vars
+\* History: the graph the program holds grows by one directed edge (NxMixedGraph.add_directed_edge on a live object).
+\* Modularity of structural models (GrowLocal below): only the mechanism at the head of the new edge changes, so every
+\* interventional distribution restricted to the non-descendants of the head is what it was.  The harness replays Grow
+\* steps on one real object (drive_cf.py history_pass: query, add the edge in place, query again): nothing that was
+\* derived from the smaller graph may survive in the answers about the larger one.
+NewDirected == {e \in g.n \X g.n : e[1] # e[2] /\ e \notin g.d /\ IsAcyclic(MkG(g.n, g.d \cup {e}, g.b))}
+Grow == /\ phase = "done" /\ Grows
+        /\ \E e \in NewDirected : g' = MkG(g.n, g.d \cup {e}, g.b)
+        /\ phase' = "done"
+Next == Run \/ Grow
+Spec == Init /\ [][Next]_vars
 
 MF(s) == ModelF(g, EdgeLatents(g), Binary(g), NoTag(g), s)
 AllDos == {<<0, X>> : X \in SUBSET g.n}
@@ -50,6 +61,18 @@ Exclusion == phase = "done" =>
         z \notin An(RemoveIn(g, {x}), {y}) =>
            \A vx \in {0, 1} : \A vz \in {0, 1} : \A ue \in UEps(W.m[0]) :
               W.T[0][{<<x, vx>>, <<z, vz>>}][ue][y] = W.T[0][{<<x, vx>>}][ue][y]
+
+\* modularity: after Grow, for every do-set X the joint of the non-descendants of the new edge's head is unchanged
+MFof(G, s) == ModelF(G, EdgeLatents(G), Binary(G), NoTag(G), s)
+WFof(G, s) == Bundle([p \in {0} |-> MFof(G, s)], {<<0, X>> : X \in SUBSET G.n})
+GrowLocal ==
+  [][(phase = "done" /\ phase' = "done") =>
+       LET e == CHOOSE e \in g'.d : e \notin g.d
+           nd == g.n \ De(g', {e[2]})
+       IN \A s \in Seeds : LET W1 == WFof(g, s)  W2 == WFof(g', s) IN
+            \A X \in SUBSET g.n : \A b \in W1.envs :
+               SumF(LAMBDA a : W1.J[<<0, X>>][a], {a \in W1.envs : \A v \in nd : a[v] = b[v]})
+             = SumF(LAMBDA a : W2.J[<<0, X>>][a], {a \in W2.envs : \A v \in nd : a[v] = b[v]})]_vars
 
 Compatible == phase = "done" =>
   \A q \in Queries(g) :
